@@ -501,6 +501,15 @@ def _r3(ctx, pkg):
         else:
             ctx.unrec("R3", "loop", (NF, lp.line if lp else fn.lineno), f"the scan is not a loop over enumerate(<check list>): {show(it)[:100] if it else 'no single loop around the store'}")
             return
+    # understood and wrong: ONE test that has nothing to do with the table stands in front of everything the scan does with an entry (the
+    # store, the reports and the growth alike): entries of the check list are skipped before they are looked up -- the original visits all
+    scan_facts = [st] + list(reports) + [m[4] for m in mods]
+    common = [g for g in cguards(st) if g[0] != SEENK and not about_table(g[0]) and all(g in cguards(f) for f in scan_facts)]
+    if common:
+        ctx.bad("R3", "loop", (NF, lp.line if lp else st.line), "entries of the check list are skipped by a test that does not concern the first-seen table, before they are looked up: "
+                "a repeated reaction that fails the test is neither entered nor reported", expected="every entry of the check list is looked up in `seen`",
+                found="; ".join(("" if p_ else "not ") + show(g)[:70] for g, p_ in common))
+        return
     # (the store IS in the not-seen arm -- checked above; a further guard on it is not evaluated: it may always hold)
     if cguards(st) == [(SEENK, False)] or all(g == (SEENK, False) for g in cguards(st)):
         ctx.ok("R3", "store only when unseen", (NF, st.line), "a key enters `seen` exactly when it was not there")
